@@ -43,6 +43,10 @@ pub fn spec_for(seed: u64, index: u64) -> sysgen::SysSpec {
             *a = i % 2 == 0;
         }
     }
+    // array-typed inputs / outputs / named nodes (aliases of array signals under other names)
+    if index % 6 == 2 {
+        sysgen::add_array_io(&mut spec, index / 6);
+    }
     spec
 }
 
